@@ -146,6 +146,34 @@ func ruleEntryPoints(c *Ctx) {
 						c.Check(R1, key, ret.Pos(), true, "tail call", "forwards "+c.P.FuncName(call.Common().StaticCallee()))
 						continue
 					}
+					// a tail call of a function value picked by a helper: every function it can be has the
+					// discipline, and it is not nil where it is called
+					if call, ok := e0.Tuple.(*ssa.Call); ok && call.Common().StaticCallee() == nil && !call.Common().IsInvoke() {
+						n := NewNormer(c.P)
+						if hc, idx, exp := expandableCall(call.Common().Value, n); exp {
+							all, names := true, ""
+							rc := n.ReachCond(fn, nil, call.Block())
+							for _, cs := range n.callCases(hc, idx, 0) {
+								n.env = append(n.env, map[ssa.Value]Poly{call.Common().Value: cs.val})
+								reach := cAnd(cs.cond, n.ReachCond(fn, nil, call.Block()))
+								n.env = n.env[:len(n.env)-1]
+								if eq, _ := CondEquivalent(reach, cFalse); eq {
+									continue // this alternative never gets here
+								}
+								nm := cs.val.asAtom()
+								f := c.P.Func(strings.TrimPrefix(nm, "func:"))
+								if !strings.HasPrefix(nm, "func:") || f == nil || !epSet[f] {
+									all = false
+								}
+								names += nm + " "
+							}
+							_ = rc
+							if all && names != "" {
+								c.Check(R1, key, ret.Pos(), true, "tail call", "forwards "+names)
+								continue
+							}
+						}
+					}
 				}
 			}
 			zero0 := isNilConst(r0)
@@ -406,6 +434,34 @@ func hasOpaque(c *Cond) bool {
 	return false
 }
 
+// assumeNoForeignChar: the guards are stated for inputs whose characters all belong to the alphabet
+// (what happens to the others is the subject of R7 / R-ATOI). A library search over the characters
+// with a predicate or a character set - strings.IndexFunc / IndexAny / ContainsFunc / ContainsAny -
+// is therefore read as "nothing found".
+func assumeNoForeignChar(c *Cond) *Cond {
+	switch c.Kind {
+	case CAnd:
+		return cAnd(assumeNoForeignChar(c.Sub[0]), assumeNoForeignChar(c.Sub[1]))
+	case COr:
+		return cOr(assumeNoForeignChar(c.Sub[0]), assumeNoForeignChar(c.Sub[1]))
+	case CNot:
+		return cNot(assumeNoForeignChar(c.Sub[0]))
+	case CCmp:
+		if strings.HasPrefix(c.Base, "call:strings.IndexFunc(") || strings.HasPrefix(c.Base, "call:strings.IndexAny(") {
+			v := -1 + c.K
+			if (c.Op == "<" && v < 0) || (c.Op == "==" && v == 0) {
+				return cTrue
+			}
+			return cFalse
+		}
+	case CBool:
+		if strings.HasPrefix(c.Name, "call:strings.ContainsFunc(") || strings.HasPrefix(c.Name, "call:strings.ContainsAny(") {
+			return cFalse
+		}
+	}
+	return c
+}
+
 func ruleGuards(c *Ctx) {
 	const R = "R5-GUARDS"
 	c.Doc(R, "input guards of the entry points: the union of the error returns whose condition does not depend on loop state is exactly the rejection condition the symbology prescribes (length limits, parity, emptiness, level and dimension ranges, nil results of sub-steps) - boundary operators included")
@@ -467,8 +523,12 @@ func ruleGuards(c *Ctx) {
 			if !zero {
 				continue
 			}
-			rc := n.ReachCond(fn, nil, ret.Block())
+			rc := assumeNoForeignChar(n.ReachCond(fn, nil, ret.Block()))
 			nret++
+			if rc.Kind == CFalse {
+				nop++ // a rejection by a library search over the characters: alphabet membership (R7, R-ATOI)
+				continue
+			}
 			if hasOpaque(rc) {
 				nop++
 				continue
